@@ -6,4 +6,4 @@ Extraction "extract/lexer_model.ml"
   BinInt.Z.of_N  (* ocaml/prelude.ml mentions the type z *)
   Utf8.encode Utf8.decode Utf8.blen
   Lexer.tokenize Lexer.keyword_from_str Lexer.str_slice Lexer.str_from Lexer.arm_of
-  ParserSkel.parse_expr ParserSkel.tag_codes ParserSkel.nested_parens ParserSkel.nested_minus.
+  ParserSkel.parse_expr ParserSkel.front_end ParserSkel.tag_codes ParserSkel.nested_parens ParserSkel.nested_minus.
